@@ -157,8 +157,16 @@ def run(tier, seed):
                 bad("several-arguments", context=cn, got=repr(got), expected=p_.a * 2.0 + s_.a)
             buf.allocate(buf.capacity + 16)  # force growth (relocation) between calls
         # ---- refused calls
-        for key, fn in [("positional", lambda: K.echo_Int64(3)), ("missing", lambda: getattr(K, f"two_{tag}")(p=objs[1], k=1.0)),
-                        ("extra", lambda: K.echo_Int64(v=1, w=2)), ("wrong-name", lambda: K.echo_Int64(x=1))]:
+        p_, s_ = objs[-3], objs[-4]
+        refusals = [("positional", lambda: K.echo_Int64(3)), ("missing", lambda: getattr(K, f"two_{tag}")(p=objs[1], k=1.0)),
+                    ("extra", lambda: K.echo_Int64(v=1, w=2)), ("wrong-name", lambda: K.echo_Int64(x=1)),
+                    # each declared argument left out in turn: a struct, another struct, a number passed by value
+                    ("missing:struct-argument", lambda: getattr(K, f"two_{tag}")(s=s_, k=2.0)),
+                    ("missing:second-struct-argument", lambda: getattr(K, f"two_{tag}")(p=p_, k=2.0)),
+                    ("missing:float-by-value", lambda: getattr(K, f"two_{tag}")(p=p_, s=s_)),
+                    ("missing:only-argument:int", lambda: K.echo_Int64()), ("missing:only-argument:float", lambda: K.echo_Float64()),
+                    ("missing:only-argument:float32", lambda: K.echo_Float32())]
+        for key, fn in refusals:
             try:
                 fn()
                 bad(f"refusal:{key}", context=cn)
